@@ -169,6 +169,12 @@ Definition server_ops (mws : list (Z * (list op * list op))) (h : list op) (err 
 Definition serve mws h err : bw := run (server_ops mws h err).
 
 
+(* ---- response.go SendFile (script: $w->file(path[, name])): after the path has been resolved (a missing
+   path or a directory is refused before anything is set: ORefused) it is two SetHeader calls, sendHeader
+   and the content copied to the connection, i.e. exactly these three calls *)
+Definition send_file (ctype disposition content : string) : list op :=
+  [OHeader "Content-Type" ctype; OHeader "Content-Disposition" disposition; OWrite content].
+
 (* ---- server_class.go / server_group.go / server_middleware.go / server_handler.go: registration.
    A Server holds a middleware stack.  middleware() appends an entry to the RECEIVER's stack;
    group() creates a new Server whose stack starts as a copy of the parent's stack at that moment
